@@ -466,6 +466,12 @@ def prop_diff(sh, case):
     text = case['text']
     a = _parse(shipped, text)
     b = _parse(model_parser(), text)
+    if any(r[0] == 'raise' and isinstance(r[1], (RecursionError, MemoryError)) for r in (a, b)):
+        # the interpreted grammar parser needs several times the stack of the generated one for the same nesting:
+        # hitting the interpreter's recursion limit is a resource bound, not a disagreement about the language
+        sh.count('diff:inconclusive-recursion-limit')
+        sh.record(None, False)
+        return fails
     if a[0] == 'raise' or b[0] == 'raise':
         # non-parse exceptions (semantic actions on literals) must at least agree in kind
         if a[0] != b[0] or type(a[1]) is not type(b[1]):
